@@ -139,3 +139,16 @@ def to_cicje(r):
     cons = _consequence(r)
     if cons is None: return None
     return {"consequence": cons}
+
+
+def from_node(n, tok):
+    """a fresh object with the definition of a projected node (plain AtLeast / variable objects; ids through the token map)"""
+    import puan, puan.logic.plog as pg
+    ident = tok.rev[n["id"]]
+    if n["k"] == "a":
+        return puan.variable(ident, (n["lo"], n["hi"]))
+    kids = [from_node(k, tok) for k in n["kids"]]
+    obj = pg.AtLeast(n["value"], kids, variable=puan.variable(ident, (n["lo"], n["hi"])), sign=n["sign"])
+    obj.generated_id = bool(n["gen"])
+    if n.get("prio", -1) != -1: obj.prio = n["prio"]
+    return obj
